@@ -68,11 +68,15 @@ def gen_case(tp, tier):
         'cmdperiod': tp.draw(6) == 0,
         'busy': tp.draw(4) == 0,
         'readd': tp.draw(3) == 0,
+        'huge': tp.draw(8) == 0,
     }
     tasks = []
     for i in range(n_tasks):
         clock = tp.choice(used)
-        kind = tp.choice(['func', 'func', 'routine'])
+        # ('obj': a user object with its own __awake__, the protocol the
+        # clocks accept besides functions and routines)
+        kind = tp.choice(['func', 'func', 'routine', 'func', 'routine',
+                          'obj'])
         nsteps = 1 + tp.draw(4)
         script = []
         for _ in range(nsteps):
@@ -82,7 +86,7 @@ def gen_case(tp, tier):
                 ret = tp.choice(DELTAS)
             elif feat['inf'] and r >= 8:
                 ret = 'inf'        # "wait for ever": never woken again
-            elif feat['raise'] and r < 6 and kind == 'func':
+            elif feat['raise'] and r < 6 and kind in ('func', 'obj'):
                 ret = 'raise'      # routine failure is C11's subject
             inner = []
             if feat['inner'] and tp.draw(3) == 0:
@@ -144,6 +148,9 @@ def _gen_op(tp, feat, n_tasks, n_tempo, clocks, self_task, inner):
             return ['nop']
     if feat['inf'] and tp.draw(6) == 0:
         d = 'inf'
+    elif feat.get('huge') and tp.draw(5) == 0:
+        # finite, but centuries away: the task just stays pending
+        d = tp.choice([1e10, 9223372037.0, 1e15])
     else:
         d = tp.choice(DELTAS)
     return [tp.choice(['sched', 'sched', 'sched_abs']), t, d]
@@ -490,7 +497,11 @@ class Model:
             scale = 1.0
             if cname.startswith('t'):
                 scale = max(1.0, abs(c._beat_dur))
-            if intended > max(due, wait_from) + self.tol * scale + 1e-9:
+            # (the library and this reconstruction round differently: a few
+            # units in the last place of times centuries away are seconds)
+            import math
+            if intended > max(due, wait_from) + self.tol * scale + 1e-9 \
+                    + 8 * math.ulp(max(abs(intended), abs(due))):
                 self.viol.add(
                     'C08-3a', f'{cname[0]}-oversleep',
                     f'{cname}: thread intends to sleep until {intended} '
@@ -812,7 +823,15 @@ def run_case(case, tape, ctx):
             m.body_exit(tid, task, cname, stime, ret)
             return ret
 
-        if tdef['kind'] == 'func':
+        if tdef['kind'] == 'obj':
+            class Awakable:
+                def __awake__(self, clock):
+                    return step_body()
+
+                def __repr__(self):
+                    return f'task{tid}'
+            task = Awakable()
+        elif tdef['kind'] == 'func':
             def func():
                 return step_body()
             func.__qualname__ = f'task{tid}'
